@@ -454,6 +454,7 @@ func main() {
 	// ---------- 2. searches and predicates ----------
 	doSearches(rng, thorough)
 	doCmpShapes(rng, thorough, w) // user comparisons of non-unit magnitude, asymmetric predicates, recorded calls
+	doElements(rng, thorough)     // NaN / +-0 elements, structs with float fields, aliased operands
 	doComparePairs(rng, thorough) // prefixes with every length difference, both directions; through the wrappers too
 	// ---------- 3. comparators ----------
 	doComparators(rng, thorough)
@@ -492,7 +493,7 @@ func main() {
 			w.Case(c.term, c.label, c.nontrivial, nil, c.replay)
 		}
 	}
-	w.Close(o, "one case = one call of a comparator / sort / search of the anchored files on a generated input (14 slice generators incl. sorted, reversed, few-distinct, organ-pipe, nearly-sorted, duplicate blocks, two runs, plus a targeted family: McIlroy-style adversaries (candidate rule with a pre-frozen sample, first-argument, second-argument and randomised freezing) run once per run against the real SortFunc, sizes 50..2000, whose killer VALUES are replayed through Sort on int64 / int / int32 / float64 / string, SortFunc, SortStableFunc and the BSlice methods, together with one input per remaining pdqsort branch (partitionEqual, partialInsertionSort true/false, reverseRange); the branches the model-replayed ones take are counted in Coq (notes.model_branches, heapsort_fallback_cases) and a run in which a required branch is not reached reports a kind-1 coverage case, ascending/descending inputs of length 50..300 with one or two displaced elements at every small offset and near the end (Sort, SortFunc, Ordered wrappers), every permutation of sizes 0..6 (distinct keys and ties) through GetSortedValues on arraylist / linkedhashset / treeset / hashset / doublylinkedlist, the lists' Sort, bcomparator.Sort and SortComparator, and every sort entry point (SortFunc, SortStableFunc, SortComparator and their ToSlice / ToBSlice variants, Sort) of all eight bslice wrapper flavours on tagged pairs with many ties, the Stable ones judged for stability; lengths 0..300 quick / 0..2000 thorough through the Coq model with the less-call sequence compared by count and rolling hash, up to 2*10^4 / 10^5 through the verified output checker only; comparators on type extremes and random pairs; CompareFunc / EqualFunc / BinarySearchFunc (package functions and the method of every bslice wrapper flavour), ReverseComparator and the comparator-taking sorts driven with comparison functions of six shapes (unit, a-b, b-a, 10*sign, (b-a)*1000003, clamped) and five predicates (three asymmetric), the (first, second) arguments of every call recorded and judged); distinct = distinct case terms; non-trivial = length >= 2 for slices, any comparator pair")
+	w.Close(o, "one case = one call of a comparator / sort / search of the anchored files on a generated input (14 slice generators incl. sorted, reversed, few-distinct, organ-pipe, nearly-sorted, duplicate blocks, two runs, plus a targeted family: McIlroy-style adversaries (candidate rule with a pre-frozen sample, first-argument, second-argument and randomised freezing) run once per run against the real SortFunc, sizes 50..2000, whose killer VALUES are replayed through Sort on int64 / int / int32 / float64 / string, SortFunc, SortStableFunc and the BSlice methods, together with one input per remaining pdqsort branch (partitionEqual, partialInsertionSort true/false, reverseRange); the branches the model-replayed ones take are counted in Coq (notes.model_branches, heapsort_fallback_cases) and a run in which a required branch is not reached reports a kind-1 coverage case, ascending/descending inputs of length 50..300 with one or two displaced elements at every small offset and near the end (Sort, SortFunc, Ordered wrappers), every permutation of sizes 0..6 (distinct keys and ties) through GetSortedValues on arraylist / linkedhashset / treeset / hashset / doublylinkedlist, the lists' Sort, bcomparator.Sort and SortComparator, and every sort entry point (SortFunc, SortStableFunc, SortComparator and their ToSlice / ToBSlice variants, Sort) of all eight bslice wrapper flavours on tagged pairs with many ties, the Stable ones judged for stability; lengths 0..300 quick / 0..2000 thorough through the Coq model with the less-call sequence compared by count and rolling hash, up to 2*10^4 / 10^5 through the verified output checker only; comparators on type extremes and random pairs; CompareFunc / EqualFunc / BinarySearchFunc (package functions and the method of every bslice wrapper flavour), ReverseComparator and the comparator-taking sorts driven with comparison functions of six shapes (unit, a-b, b-a, 10*sign, (b-a)*1000003, clamped) and five predicates (three asymmetric), the (first, second) arguments of every call recorded and judged; Equal / EqualFunc(==) / Compare / CompareFunc(native) / Index / Contains / IsSorted on float64, float32 and struct{float64,int} elements with NaN, +0/-0 and infinities (sent as class codes, NaN = -1, judged with the partial element relations of CmpSel.v) and on ALIASED operands: the same slice twice, capped / shorter / shifted / suffix views of one array, a wrapper against its own ToMetaSlice()); distinct = distinct case terms; non-trivial = length >= 2 for slices, any comparator pair")
 }
 
 // diffOrdered: transform zsortfunc.go textually into what zsortordered.go must be and compare
